@@ -176,3 +176,112 @@ pub fn sparse_scalar(p: &mut Prng, mask: u64) -> BigUint {
         v
     }
 }
+
+/// Valid curve points crafted so that one of the 256-bit additions of the on-curve test, in the library's stored
+/// (Montgomery) representation, falls on a boundary: `x^2 + a` and `(x^3 + ax) + b` with the stored sum in
+/// [p, 2^256) (needs the conditional subtraction without a carry-out), exactly at p-1-j / p+j / 2^256-1-j / 2^256+j,
+/// or with a limb pair adding up to 2^64-1 while a carry arrives from below (carry ripples through an all-ones limb).
+/// Every returned point is an ordinary valid point; only the chance of meeting one by accident is ~2^-32..2^-64.
+pub fn crafted_points(p: &mut Prng, per_class: usize) -> Vec<(String, (BigUint, BigUint))> {
+    crafted_points_sharded(p, per_class, 0, 1)
+}
+
+/// The classes whose index is congruent to `shard` modulo `shards`.
+pub fn crafted_points_sharded(p: &mut Prng, per_class: usize, shard: u64, shards: u64) -> Vec<(String, (BigUint, BigUint))> {
+    let c = r2::curve();
+    let two256: BigUint = BigUint::one() << 256;
+    let mut out: Vec<(String, (BigUint, BigUint))> = vec![];
+    let mut class_idx = 0u64;
+    let adds: [(&str, [u64; 4], fn(&[u64; 4]) -> Option<(BigUint, BigUint)>); 2] = [("x^2+a", r2::to_mont_p(&c.a), r2::point_with_mont_x2), ("(x^3+ax)+b", r2::to_mont_p(&c.b), r2::point_with_mont_x3ax)];
+    for (nm, cl, make) in adds {
+        let cb = r2::from_limbs(&cl);
+        let width = &two256 - &c.p;
+        // value patterns: closures from (try index, prng) to the other operand v
+        let mut pats: Vec<(String, Box<dyn Fn(u64, &mut Prng) -> Option<BigUint>>)> = vec![];
+        {
+            let (cb1, pp, w) = (cb.clone(), c.p.clone(), width.clone());
+            pats.push((format!("{}:stored_sum_in_[p,2^256)", nm), Box::new(move |_, q| {
+                let lim = if cb1 < w { cb1.clone() } else { w.clone() };
+                if lim.is_zero() {
+                    return None;
+                }
+                let t = BigUint::from_bytes_be(&q.bytes(40)) % &lim;
+                Some(&pp - &cb1 + t)
+            })));
+            let (cb1, pp) = (cb.clone(), c.p.clone());
+            pats.push((format!("{}:stored_sum=p+j", nm), Box::new(move |j, _| Some(&pp - &cb1 + j))));
+            let (cb1, pp) = (cb.clone(), c.p.clone());
+            pats.push((format!("{}:stored_sum=p-1-j", nm), Box::new(move |j, _| {
+                let s = &pp - 1u32 - j;
+                if s >= cb1 { Some(s - &cb1) } else { None }
+            })));
+            let (cb1, t) = (cb.clone(), two256.clone());
+            pats.push((format!("{}:stored_sum=2^256-1-j", nm), Box::new(move |j, _| Some(&t - 1u32 - j - &cb1))));
+            let (cb1, t) = (cb.clone(), two256.clone());
+            pats.push((format!("{}:stored_sum=2^256+j", nm), Box::new(move |j, _| Some(&t + j - &cb1))));
+        }
+        for i in 1..4usize {
+            for run in 1..=(4 - i) {
+                // limbs i..i+run add up to all-ones each, a carry is generated at the highest non-zero limb of c below i
+                let Some(k) = (0..i).rev().find(|&k| cl[k] != 0) else { continue };
+                pats.push((format!("{}:limbs{}..{}_sum_all_ones_carry_in", nm, i, i + run - 1), Box::new(move |_, q| {
+                    let mut v = q.limbs();
+                    for j in (k + 1)..(i + run) {
+                        v[j] = !cl[j];
+                    }
+                    v[k] = 0u64.wrapping_sub(cl[k]).wrapping_add(q.below(cl[k]));
+                    Some(r2::from_limbs(&v))
+                })));
+            }
+        }
+        // the variable operand itself has all-ones (or zero) limbs i..i+run-1 while a carry arrives from below
+        for i in 1..4usize {
+            for run in 1..=(4 - i) {
+                let Some(k) = (0..i).rev().find(|&k| cl[k] != 0) else { continue };
+                for (fill, fname) in [(u64::MAX, "all_ones"), (0u64, "zero")] {
+                    pats.push((format!("{}:operand_limbs{}..{}_{}_carry_in", nm, i, i + run - 1, fname), Box::new(move |_, q| {
+                        let mut v = q.limbs();
+                        for j in (k + 1)..i {
+                            v[j] = !cl[j];
+                        }
+                        for j in i..(i + run) {
+                            v[j] = fill;
+                        }
+                        v[k] = 0u64.wrapping_sub(cl[k]).wrapping_add(q.below(cl[k]));
+                        if i + run < 4 && i + run == 3 {
+                            // keep the value below p when the top limb is free
+                            v[3] &= 0x7FFF_FFFF_FFFF_FFFF;
+                        }
+                        Some(r2::from_limbs(&v))
+                    })));
+                }
+            }
+        }
+        for (name, f) in pats {
+            class_idx += 1;
+            let sub = p.next();
+            if class_idx % shards != shard % shards {
+                continue;
+            }
+            let p = &mut Prng::new(sub, "cls");
+            let mut found = 0;
+            for j in 0..96u64 {
+                let Some(v) = f(j, p) else { continue };
+                if v >= c.p {
+                    continue;
+                }
+                if let Some(pt) = make(&r2::to_limbs(&v)) {
+                    // the harness's own construction: the point must be on the curve
+                    if r2::on_curve(&pt.0, &pt.1) {
+                        out.push((name.clone(), pt));
+                        found += 1;
+                        if found >= per_class {
+                            break;
+                        }
+                    }
+                }
+            }
+        }
+    }
+    out
+}
